@@ -208,3 +208,84 @@ def degenerate(rng, count, types=("d",), nmax=24):
             kw["sigmai"] = rng.choice(["0.8", "1.9"])
         out.append(desc(**kw))
     return out
+
+
+def history_descs(rng, count, types=("d",), classes=("sym", "symsh", "herm", "gen", "genrs", "gencs"), maxlen=3, nmax=24, exhaustive_for=None):
+    """C06: 'init(v); compute(args)' observed after every history over the call alphabet (prefix lengths 0..maxlen), against the
+    baseline of a fresh object; P probes the operator before and after."""
+    alphabet = ["I", "V1", "V2", "C0", "C1", "C2", "Z", "N"]
+    out = []
+
+    def one(cls, ty, prefix):
+        gen = cls in ("gen", "genrs", "gencs")
+        n = rng.randint(8, nmax)
+        f = gen_fam(rng, n) if gen else herm_fam(rng, n)
+        if cls == "herm" and f["fam"] not in ("rand", "presc", "blockdiag"):
+            f = dict(fam="rand")
+        if cls == "symsh" and f["fam"] in ("bipart", "grid"):
+            f = dict(fam="rand")
+        nev, ncv = pick_dims(rng, n, gen=gen)
+        rules = GEN_RULES if gen else HERM_SEL
+        sorts = GEN_RULES if gen else HERM_SORT
+        a0 = "%d:%d:%s:%d" % (rng.choice(rules), rng.choice([80, 80, 3, 1]), tol_for(rng, ty), rng.choice(sorts))
+        a1 = "%d:%d:%s:%d" % (rng.choice(rules), rng.choice([0, 1, 2, 80]), tol_for(rng, ty), rng.choice(sorts))
+        # args2: a rule the family does not support => compute() throws invalid_argument
+        a2 = "%d:%d:%s:%d" % (3 if gen else 1, 5, tol_for(rng, ty), rng.choice(sorts))
+        obs = rng.choice(["I,C0", "V1,C0", "I,C1"])
+        hist = "N,P," + obs + ",P" + ("," + ",".join(prefix) if prefix else "") + "," + obs + ",P,N," + obs + ",P"
+        kw = dict(cls=cls, ty=ty, n=n, nev=nev, ncv=ncv, seed=rng.randint(1, 10 ** 6), hist=hist, args0=a0, args1=a1, args2=a2,
+                  sv1=rng.choice(["rnd", "rnd2"]), sv2=rng.choice(["rnd", "rnd2"]), meas=0, mconv=0, ref=0)
+        kw.update(f)
+        if cls == "symsh":
+            kw["sigma"] = rng.choice(["0.37", "-1.63", "2.5"])
+        if cls == "genrs":
+            kw["sigma"] = rng.choice(["0.37", "-1.63", "2.45"])
+        if cls == "gencs":
+            kw["sigma"] = rng.choice(["0.37", "-1.13", "2.45"])
+            kw["sigmai"] = rng.choice(["0.8", "1.9", "0.3"])
+        return desc(**kw)
+
+    if exhaustive_for:
+        import itertools
+        for cls in exhaustive_for:
+            for L in range(0, maxlen + 1):
+                for prefix in itertools.product(alphabet, repeat=L):
+                    out.append(one(cls, "d", list(prefix)))
+        return out
+    for i in range(count):
+        cls = rng.choice(classes)
+        L = rng.randint(0, maxlen)
+        prefix = [rng.choice(alphabet) for _ in range(L)]
+        out.append(one(cls, rng.choice(types), prefix))
+    return out
+
+
+def fault_descs(rng, count, types=("d",), classes=("sym", "symsh", "herm", "gen", "genrs", "gencs"), nmax=16, stride=1, pairs=False, rep=1):
+    """C14: fault sweep over every application index of a fault-free 'init(); compute()' (token A), optionally pairs (A2)."""
+    out = []
+    for i in range(count):
+        cls = classes[i % len(classes)]
+        ty = rng.choice(types)
+        gen = cls in ("gen", "genrs", "gencs")
+        n = rng.randint(8, nmax)
+        f = gen_fam(rng, n) if gen else herm_fam(rng, n)
+        if cls == "herm" and f["fam"] not in ("rand", "presc", "blockdiag"):
+            f = dict(fam="rand")
+        if cls == "symsh" and f["fam"] in ("bipart", "grid"):
+            f = dict(fam="rand")
+        nev, ncv = pick_dims(rng, n, gen=gen)
+        rules = GEN_RULES if gen else HERM_SEL
+        sorts = GEN_RULES if gen else HERM_SORT
+        a0 = "%d:%d:%s:%d" % (rng.choice(rules), rng.choice([3, 6, 12]), tol_for(rng, ty), rng.choice(sorts))
+        kw = dict(cls=cls, ty=ty, n=n, nev=nev, ncv=ncv, seed=rng.randint(1, 10 ** 6), hist="N,I,C0," + ("A2" if pairs else "A"), args0=a0,
+                  meas=0, mconv=0, ref=0, fstride=stride, foff=rng.randint(0, max(0, stride - 1)), rep=rep)
+        kw.update(f)
+        if cls == "symsh":
+            kw["sigma"] = rng.choice(["0.37", "-1.63", "2.5"])
+        if cls == "genrs":
+            kw["sigma"] = rng.choice(["0.37", "-1.63", "2.45"])
+        if cls == "gencs":
+            kw["sigma"] = rng.choice(["0.37", "-1.13", "2.45"])
+            kw["sigmai"] = rng.choice(["0.8", "1.9", "0.3"])
+        out.append(desc(**kw))
+    return out
